@@ -196,29 +196,41 @@ def add(a, b):
         return b
     if b.op == 'const' and b.args[0] == 0:
         return a
-    # flatten sums: (terms..., const)
-    items = []
+    return _sum2((a, b))
+
+
+def _sum2(xs):
+    """Canonical linear combination: coefficients per base term are accumulated (x + x -> 2x, 3x - x -> 2x,
+    x + (-x) -> 0), constants folded; linear in the number of summands."""
+    coeff = {}          # base tid -> [base term, coefficient] (insertion ordered)
     c = 0
-    for x in (a, b):
-        if x.op == 'add':
-            for y in x.args:
-                if y.op == 'const':
-                    c += y.args[0]
-                else:
-                    items.append(y)
-        elif x.op == 'const':
-            c += x.args[0]
-        else:
-            items.append(x)
-    # cancel x + (-x)
+    for x in xs:
+        for y in (x.args if x.op == 'add' else (x,)):
+            op = y.op
+            if op == 'const':
+                c += y.args[0]
+                continue
+            if op == 'neg':
+                base, k = y.args[0], -1
+            elif op == 'mul' and y.args[0].op == 'const':
+                base, k = y.args[1], y.args[0].args[0]
+            else:
+                base, k = y, 1
+            e = coeff.get(base.tid)
+            if e is None:
+                coeff[base.tid] = [base, k]
+            else:
+                e[1] += k
     out = []
-    for y in items:
-        n = neg(y)
-        i = _idx(out, n)
-        if i >= 0:
-            del out[i]
+    for base, k in coeff.values():
+        if k == 0:
+            continue
+        if k == 1:
+            out.append(base)
+        elif k == -1:
+            out.append(_neg1(base))
         else:
-            out.append(y)
+            out.append(_mulc(k, base))
     if not out:
         return IntVal(c)
     if c:
@@ -227,10 +239,29 @@ def add(a, b):
         return out[0]
     t = mk('add', tuple(out), INT)
     if t.lo is None and t.hi is None:
-        los = [x.lo for x in out]
-        his = [x.hi for x in out]
-        t.lo = sum(los) if all(v is not None for v in los) else None
-        t.hi = sum(his) if all(v is not None for v in his) else None
+        lo = hi = 0
+        for x in out:
+            if lo is not None:
+                lo = None if x.lo is None else lo + x.lo
+            if hi is not None:
+                hi = None if x.hi is None else hi + x.hi
+        t.lo, t.hi = lo, hi
+    return t
+
+
+def _neg1(a):
+    t = mk('neg', (a,), INT)
+    if t.lo is None and t.hi is None:
+        t.lo = -a.hi if a.hi is not None else None
+        t.hi = -a.lo if a.lo is not None else None
+    return t
+
+
+def _mulc(c, b):
+    t = mk('mul', (IntVal(c), b), INT)
+    if t.lo is None and t.hi is None and b.lo is not None and b.hi is not None:
+        v = (c * b.lo, c * b.hi)
+        t.lo, t.hi = min(v), max(v)
     return t
 
 
@@ -240,10 +271,9 @@ def neg(a):
     if a.op == 'neg':
         return a.args[0]
     if a.op == 'add':
-        r = IntVal(0)
-        for x in a.args:
-            r = add(r, neg(x))
-        return r
+        return _sum2([neg(x) for x in a.args])
+    if a.op == 'mul' and a.args[0].op == 'const':
+        return mul(IntVal(-a.args[0].args[0]), a.args[1])
     t = mk('neg', (a,), INT)
     if t.lo is None and t.hi is None:
         t.lo = -a.hi if a.hi is not None else None
@@ -265,15 +295,12 @@ def mul(a, b):
         if c == -1:
             return neg(b)
         if b.op == 'add':
-            r = IntVal(0)
-            for x in b.args:
-                r = add(r, mul(a, x))
-            return r
-        t = mk('mul', (a, b), INT)
-        if t.lo is None and t.hi is None and b.lo is not None and b.hi is not None:
-            v = (c * b.lo, c * b.hi)
-            t.lo, t.hi = min(v), max(v)
-        return t
+            return _sum2([mul(a, x) for x in b.args])
+        if b.op == 'neg':
+            return mul(IntVal(-c), b.args[0])
+        if b.op == 'mul' and b.args[0].op == 'const':
+            return mul(IntVal(c * b.args[0].args[0]), b.args[1])       # nested constant factors collapse
+        return _mulc(c, b)
     return mk('mul', (a, b), INT)
 
 
@@ -444,11 +471,15 @@ def HexDigit(b, hi):
     return t
 
 
+def BitChar(v, sh, top=False):
+    """ASCII '0'/'1' of bit `sh` of the non-negative Int term v (lazy: no bit variable, no defining equation)."""
+    t = mk('bitchr', (v, sh), INT)
+    t.lo, t.hi = (49 if top else 48), 49
+    return t
+
+
 def Sum(xs):
-    r = IntVal(0)
-    for x in xs:
-        r = add(r, _t(x))
-    return r
+    return _sum2([_t(x) for x in xs])
 
 
 def BitVec(name, w):
@@ -551,6 +582,8 @@ def to_z3(t):
         z = _z3.Or([to_z3(x) for x in a])
     elif op == 'ite':
         z = _z3.If(to_z3(a[0]), to_z3(a[1]), to_z3(a[2]))
+    elif op == 'bitchr':
+        z = 48 + (to_z3(a[0]) / (2 ** a[1])) % 2
     elif op in ('hexhi', 'hexlo'):
         b = to_z3(a[0])
         if t.sort == BV:
@@ -636,6 +669,21 @@ class Solver:
         return self.s.model()
 
 
+def check_fresh(terms, timeout_ms, want_model=False):
+    """One-shot check with a fresh, non-incremental solver (z3's tactic pipeline with preprocessing decides arithmetic
+    queries that its incremental core - used after push() - gives up on)."""
+    s = _z3.Solver()
+    s.set('timeout', int(timeout_ms))
+    seen, extra = set(), []
+    for t in terms:
+        var_bounds_constraints(t, seen, extra)
+    s.add(extra)
+    s.add([to_z3(t) for t in terms])
+    r = s.check()
+    m = model_dict(s.model()) if (r == sat and want_model) else None
+    return r, m
+
+
 def evaluate(t, model):
     """Evaluate a term under a (partial) model: dict var-name -> python value; missing vars get an in-bounds default."""
     op, a = t.op, t.args
@@ -706,6 +754,8 @@ def evaluate(t, model):
         return evaluate(a[1], model) if evaluate(a[0], model) else evaluate(a[2], model)
     if op in ('hexhi', 'hexlo'):
         return ord(('%02x' % evaluate(a[0], model))[0 if op == 'hexhi' else 1])
+    if op == 'bitchr':
+        return 48 + ((evaluate(a[0], model) >> a[1]) & 1)
     raise NotImplementedError('evaluate ' + op)
 
 
